@@ -498,6 +498,14 @@ func GenMerge(t *rapid.T, ctx *Ctx, sc *Scenario, cfg CaseCfg, depth int, label 
 			}
 		}
 		drops[i] = GenDrops(t, ins[i].Exp.N, fmt.Sprintf("%s.%d", label, i))
+		if cfg.Family == FamHuge && ins[i].Exp.N > 131072 && rapid.IntRange(0, 2).Draw(t, fmt.Sprintf("%s.%d:keepMost", label, i)) > 0 {
+			// keep more than 2^17 survivors: at most a handful of deletions
+			bm := roaring.New()
+			for k := rapid.IntRange(0, 3).Draw(t, fmt.Sprintf("%s.%d:fewDrops", label, i)); k > 0; k-- {
+				bm.Add(uint32(rapid.IntRange(0, ins[i].Exp.N-1).Draw(t, fmt.Sprintf("%s.%d:fewDrop", label, i))))
+			}
+			drops[i] = bm
+		}
 	}
 	modes := ChunkModes
 	if cfg.Family == FamWide || cfg.Family == FamHuge || cfg.Family == FamDVGaps {
